@@ -2303,7 +2303,7 @@ def glom(target, spec, **kwargs):
         else:  # wrapping failed, fall back to default behavior
             raise
 
-    if err:
+    if err is not None:  # (an exception may be falsy, e.g. define __len__)
         raise err
     return ret
 
